@@ -1351,14 +1351,19 @@ class Router:
             if (entry is not None and entry.ls_pending) or sought_gn_addr in self._ls_retransmit_counters:
                 # LS already in-progress → just queue the request (the placeholder LocTE
                 # may have been removed by a location table refresh in the meantime)
-                self.location_table.ensure_entry(sought_gn_addr).ls_pending = True
+                with self.location_table.loc_t_lock:
+                    self.location_table.ensure_entry(sought_gn_addr).ls_pending = True
                 if buffered_request is not None:
                     self._ls_packet_buffers.setdefault(
                         sought_gn_addr, []).append(buffered_request)
                 return
-            # Create or fetch LocTE and set ls_pending
-            entry = self.location_table.ensure_entry(sought_gn_addr)
-            entry.ls_pending = True
+            # Create or fetch LocTE and set ls_pending.  Both happen inside one loc_t_lock section: a
+            # GeoUnicast request running in another thread must never find the placeholder LocTE
+            # (PV all zero) without its ls_pending flag, it would send its packet towards (0, 0)
+            # instead of queueing it behind the lookup.
+            with self.location_table.loc_t_lock:
+                entry = self.location_table.ensure_entry(sought_gn_addr)
+                entry.ls_pending = True
             self._ls_packet_buffers[sought_gn_addr] = (
                 [buffered_request] if buffered_request is not None else []
             )
